@@ -219,6 +219,8 @@ def check(ctx):
 def coindexing(ctx, res, member, err, dids, IDPAIRS, rule):
     """values and pair-end indices stay parallel (shared with C12.4)"""
     # ---------------------------------------------------------- C02.2
+    from ..lib import split_comp_ite
+    dids = fuse_elems(split_comp_ite(dids))
     sel_e, sel_d = _index_sets(err), _index_sets(dids)
     ok = set(sel_e) == set(sel_d)
     ctx.ob(rule, res.func, ok,
